@@ -135,12 +135,20 @@ def gen_params(rng, per_cue=False, cue_names=()):
 
 
 def gen_events(rng, n_events, n_cue_alpha=8, n_out_alpha=5, max_cues=6, max_outs=3,
-               dups=False, late=True, outcome_less=True, file_form=False):
+               dups=False, late=True, outcome_less=True, file_form=False, shared=False):
     """name-level events.  Classes: repeated cues/outcomes (dups), cues and outcomes
     first seen in the last third (late), outcome-less events.  With file_form an
-    outcome-less event has the single outcome '' (what the text format yields)."""
+    outcome-less event has the single outcome '' (what the text format yields).
+    With shared, cues and outcomes are words of ONE vocabulary (a word can be a cue in one
+    event and an outcome in another, as in real corpora); the outcome that is first seen late
+    is a word that has been a cue from the start."""
     cues = ["c%d" % i for i in range(n_cue_alpha)]
     outs = ["o%d" % i for i in range(n_out_alpha)]
+    if shared:
+        cues = ["w%d" % i for i in range(n_cue_alpha)]
+        # outcomes: some words that are cues too, some that are outcomes only; the late one (last) is cue w0
+        outs = (["w%d" % (n_cue_alpha - 1 - i) if i % 2 == 0 else "v%d" % i for i in range(n_out_alpha - 1)] + ["w0"]) \
+            if n_out_alpha > 1 else ["w0"]
     late_c, late_o = cues[-2:], outs[-1:]
     es = []
     for k in range(n_events):
